@@ -274,6 +274,7 @@ type cres =
 | COverflowError
 | CValueError
 | CUnicodeDecodeError
+| CAbort
 
 val uchar_accepts : bool -> z -> bool -> z -> bool
 
